@@ -344,9 +344,134 @@ func pcoMarshalStepJob(w *core.World, base func(fn *ssa.Function, ord int) *sym.
 	return job, loops
 }
 
+// pcoUnmarshalStepJob: UnMarshal on ANY byte string, any number of units. The reader loop is cut at its invariant and
+// one iteration is compared with the (arbitrary) state at the loop head: the reader still reads the caller's octets,
+// which are unchanged; its position only moves forward and stays within the input; and every field of every unit
+// that differs from its value at the head (or from the constructor's defaults, for a unit allocated in this
+// iteration) holds exactly the input octets between the old and the new reader position (identifier: two octets,
+// big-endian; length: one octet; contents: LengthOfContents octets in a fresh slice). The position moves only over
+// octets that were stored. By induction over the iterations (paper step) every identifier, length and content octet
+// of every returned unit is an input octet, in input order.
+func pcoUnmarshalStepJob(w *core.World, base func(fn *ssa.Function, ord int) *sym.LoopSpec) (Job, func(fn *ssa.Function, ord int) *sym.LoopSpec) {
+	ufn := w.Funcs["(*nasConvert.ProtocolConfigurationOptions).UnMarshal"]
+	name := "(*nasConvert.ProtocolConfigurationOptions).UnMarshal"
+	isUnit := func(o *sym.Object) bool {
+		n, ok := o.Typ.(*types.Named)
+		return ok && n.Obj().Name() == "ProtocolOrContainerUnit"
+	}
+	loops := func(fn *ssa.Function, ord int) *sym.LoopSpec {
+		ls := base(fn, ord)
+		if fn != ufn || ord != 0 || ls == nil {
+			return ls
+		}
+		ls.OnEntry = func(fx *sym.FnExec, fr *sym.Frame, st *sym.State) {
+			var g *Term = False
+			for o, v := range st.Heap {
+				if o.Name == "bytes.Reader" {
+					r := v.(sym.StructV)
+					g = And(Eq(r.F[1].(sym.Scalar).T, BVC(64, 1)), ULe(BVC(64, 1), r.F[0].(sym.SliceV).Len))
+				}
+			}
+			fx.Oblige(st, name+"#entry.reader", "inv.init", g, "", "at the first arrival at the loop head exactly the configuration-protocol octet has been read and the read position is within the input")
+		}
+		ls.OnBackEdge = func(fx *sym.FnExec, head *sym.State, headFr *sym.Frame, fr *sym.Frame, st *sym.State) {
+			fail := func(why string) {
+				fx.Oblige(st, name+"#step.reader", "inv.preserve", False, "", why)
+			}
+			var rd *sym.Object
+			for o := range st.Heap {
+				if o.Name == "bytes.Reader" {
+					if rd != nil {
+						fail("more than one reader")
+						return
+					}
+					rd = o
+				}
+			}
+			if rd == nil {
+				fail("reader not found at the back edge")
+				return
+			}
+			r0, ok0 := head.Heap[rd].(sym.StructV)
+			r1, ok1 := st.Heap[rd].(sym.StructV)
+			if !ok0 || !ok1 {
+				fail("reader not found at the loop head")
+				return
+			}
+			d0, d1 := r0.F[0].(sym.SliceV), r1.F[0].(sym.SliceV)
+			pH, pS := r0.F[1].(sym.Scalar).T, r1.F[1].(sym.Scalar).T
+			var dc sym.Content = sym.CZero{W: 8}
+			var same *Term = True
+			if d1.Obj != nil {
+				a1, ok := st.Heap[d1.Obj].(sym.ArrV)
+				if !ok {
+					fail("input octets not found")
+					return
+				}
+				dc = a1.C
+				if a0, ok := head.Heap[d1.Obj]; ok {
+					same = fx.EqV(a0, a1)
+				} else {
+					same = False
+				}
+			}
+			at := func(i *Term) *Term { return dc.Elem(Add(d1.Off, i)) }
+			fx.Oblige(st, name+"#step.reader", "inv.preserve",
+				Implies(ULe(pH, d0.Len), And(fx.EqV(d0, d1), same, ULe(pH, pS), ULe(pS, d1.Len))), "",
+				"from a read position within the input, an iteration leaves the input octets and the reader's view of them unchanged and moves the position forward, still within the input")
+			var gs, moved []*Term
+			nunits := 0
+			for o, v := range st.Heap {
+				if !isUnit(o) {
+					continue
+				}
+				nunits++
+				u1 := v.(sym.StructV)
+				id1, ln1, c1 := u1.F[0].(sym.Scalar).T, u1.F[1].(sym.Scalar).T, u1.F[2].(sym.SliceV)
+				id0, ln0 := BVC(16, 0), BVC(8, 0)
+				var keepC *Term = Eq(c1.Len, BVC(64, 0))
+				if v0, ok := head.Heap[o].(sym.StructV); ok {
+					id0, ln0 = v0.F[0].(sym.Scalar).T, v0.F[1].(sym.Scalar).T
+					keepC = fx.EqV(v0.F[2], c1)
+					if c0 := v0.F[2].(sym.SliceV); c0.Obj != nil && c0.Obj == c1.Obj {
+						if a0, ok := head.Heap[c0.Obj]; ok {
+							keepC = And(keepC, fx.EqV(a0, st.Heap[c1.Obj]))
+						}
+					}
+				}
+				var cc sym.Content = sym.CZero{W: 8}
+				if c1.Obj != nil {
+					if a, ok := st.Heap[c1.Obj].(sym.ArrV); ok {
+						cc = a.C
+					}
+				}
+				setID := And(Eq(pS, Add(pH, BVC(64, 2))), Eq(id1, Concat(at(pH), at(Add(pH, BVC(64, 1))))))
+				setLn := And(Eq(pS, Add(pH, BVC(64, 1))), Eq(ln1, at(pH)))
+				setC := And(Eq(c1.Len, Sub(pS, pH)), Eq(c1.Len, ZExt(64, ln1)), fx.EqContent(cc, c1.Off, dc, Add(d1.Off, pH), c1.Len))
+				gs = append(gs, Or(Eq(id1, id0), setID), Or(Eq(ln1, ln0), setLn), Or(keepC, setC))
+				moved = append(moved, setID, setLn, setC)
+			}
+			if nunits == 0 {
+				fx.Oblige(st, name+"#step.units", "inv.preserve", False, "", "no unit object at the back edge")
+				return
+			}
+			fx.Oblige(st, name+"#step.units", "inv.preserve", And(gs...), "",
+				"every identifier, length and contents that an iteration sets holds exactly the input octets between the old and the new read position")
+			fx.Oblige(st, name+"#step.consumed", "inv.preserve", Or(append([]*Term{Eq(pS, pH)}, moved...)...), "",
+				"the read position moves only over octets that were stored in a unit")
+		}
+		return ls
+	}
+	job := Job{Fn: ufn, Spec: &sym.FnSpec{Tag: "any byte string: step relation of the reader loop",
+		Requires: func(fx *sym.FnExec, st *sym.State, args []sym.Value) {
+			st.Assume(Not(args[0].(sym.PtrV).Nil))
+		}}}
+	return job, loops
+}
+
 func c16(w *core.World, rep *core.Report) {
 	std(rep)
-	rep.Explain = "PDU session bitmaps: PSIToBooleanArray and PSIToBuf are proved to map bit i%8 of octet i/8 to entry i and back for all 2^16 bitmaps (16-iteration loops executed completely, one symbolic 16-bit state), so both round trips are identities; PDUSessionReactivationResultErrorCauseToBuf interleaves the two inputs (loop invariant with a quantifier over pairs). Protocol configuration options: UnMarshal is total and terminating for every byte string (safety contract with the three-state reader invariant and a weighted variant, as in C14); Marshal layout holds for lists of ANY length: at the first arrival at the loop head the buffer is exactly 0x80, every iteration appends identifier (big-endian), length octet and contents of the unit it read and changes nothing else (two-state step relation checked at the back edge from an arbitrary loop-head state), and the result is the buffer; the concatenation over all units follows by induction over the iterations (paper step). In addition the complete layout and the Marshal/UnMarshal round trip are checked on lists of up to 3 / 2 units with symbolic identifiers, lengths 0..255 and contents."
+	rep.Explain = "PDU session bitmaps: PSIToBooleanArray and PSIToBuf are proved to map bit i%8 of octet i/8 to entry i and back for all 2^16 bitmaps (16-iteration loops executed completely, one symbolic 16-bit state), so both round trips are identities; PDUSessionReactivationResultErrorCauseToBuf interleaves the two inputs (loop invariant with a quantifier over pairs). Protocol configuration options: UnMarshal is total and terminating for every byte string (safety contract with the three-state reader invariant and a weighted variant, as in C14); Marshal layout holds for lists of ANY length: at the first arrival at the loop head the buffer is exactly 0x80, every iteration appends identifier (big-endian), length octet and contents of the unit it read and changes nothing else (two-state step relation checked at the back edge from an arbitrary loop-head state), and the result is the buffer; the concatenation over all units follows by induction over the iterations (paper step). UnMarshal's contents-from-input statement holds per iteration for byte strings with ANY number of units: the read position starts at 1 within the input, every iteration keeps the input octets unchanged and the position within the input, and every identifier, length octet and contents it stores in a unit are exactly the input octets between the old and the new read position (two-state relation over the unit objects on the heap, checked at the back edge from an arbitrary loop-head state; induction over iterations on paper). In addition the complete layout and the Marshal/UnMarshal round trip are checked on lists of up to 3 / 2 units with symbolic identifiers, lengths 0..255 and contents."
 	// Marshal/UnMarshal harnesses execute the reader loop directly (bounded number of units), without its cut-point
 	base := w.Cx.Loops
 	unroll := map[*ssa.Function]bool{}
@@ -359,6 +484,11 @@ func c16(w *core.World, rep *core.Report) {
 	w.Cx.ElemsNonNil = true
 	RunJobs(w, rep, []Job{stepJob})
 	w.Cx.ElemsNonNil = false
+	w.Cx.Loops = base
+	// UnMarshal for any byte string: per-iteration relation between the units and the input octets
+	ustepJob, ustepLoops := pcoUnmarshalStepJob(w, base)
+	w.Cx.Loops = ustepLoops
+	RunJobs(w, rep, []Job{ustepJob})
 	w.Cx.Loops = base
 	for _, k := range []string{"(*nasConvert.ProtocolConfigurationOptions).UnMarshal", "(*nasConvert.ProtocolConfigurationOptions).Marshal"} {
 		if fn := w.Funcs[k]; fn != nil {
@@ -384,10 +514,10 @@ func c16(w *core.World, rep *core.Report) {
 	w.Cx.Loops = base
 	rep.Bounded = append(rep.Bounded,
 		core.Bounded{Function: "(*nasConvert.ProtocolConfigurationOptions).Marshal (complete output in one obligation)", Bound: fmt.Sprintf("lists of 0..%d units (identifiers, lengths, contents symbolic); the per-iteration step relation is unbounded", maxM)},
-		core.Bounded{Function: "(*nasConvert.ProtocolConfigurationOptions).UnMarshal contents-from-input", Bound: fmt.Sprintf("arbitrary byte strings (symbolic octets, symbolic length up to 2^20) that parse into at most %d units; paths with more loop iterations are not explored", maxS)},
+		core.Bounded{Function: "(*nasConvert.ProtocolConfigurationOptions).UnMarshal contents-from-input", Bound: fmt.Sprintf("arbitrary byte strings (symbolic octets, symbolic length up to 2^20) that parse into at most %d units; paths with more loop iterations are not explored by this harness (the per-iteration relation between the units and the input octets is unbounded)", maxS)},
 		core.Bounded{Function: "(*nasConvert.ProtocolConfigurationOptions).UnMarshal round trip", Bound: fmt.Sprintf("serialised lists of 0..%d units; totality and termination of UnMarshal are unbounded", maxR)})
 	rep.Floor = 60
 	rep.AddUnique(&rep.Assumptions,
 		"Marshal step relation: the units of the list are non-nil pointers (a nil unit makes Marshal panic; such a list is not well-formed) and the length octet is written as stored (LengthOfContents == len(Contents) is the caller's well-formedness condition)",
-		fmt.Sprintf("'never yields contents that are not in the input' is decided for byte strings that parse into at most %d units (bounded harness); beyond that the list is a slice of pointers whose content the engine does not track", maxS))
+		fmt.Sprintf("'never yields contents that are not in the input': the returned list as a whole is checked for byte strings that parse into at most %d units (bounded harness); for more units the per-iteration relation (every stored field equals the input octets at the read position) is proved, and that the list only grows by appending the unit of the current iteration is not (the list is a slice of pointers whose content the engine does not track)", maxS))
 }
